@@ -9,5 +9,6 @@ func main() {
 	kit.Main(map[string]*kit.Spec{
 		"C04": chansim.C04(),
 		"C05": chansim.C05(),
+		"C10": chansim.C10(),
 	})
 }
